@@ -22,7 +22,9 @@ try:
     if rc != 0:
         raise SystemExit("patch does not apply: " + out[-500:])
     # rebased patch against HEAD
-    rebased = subprocess.check_output("git diff", shell=True, cwd=WT, text=True)
+    rebased = subprocess.check_output("git add -A && git diff --cached HEAD", shell=True, cwd=WT, text=True)  # (--cached: new files too)
+    subprocess.run("git reset -q", shell=True, cwd=WT)
+    new_files = re.findall(r"^diff --git a/(\S+) b/\S+\nnew file mode", rebased, re.M)
     # (2) suite with the patch (the known-flaky test is skipped: it hangs ~2% of runs on the unmodified tree too)
     suite_ok, suite_out = True, ""
     for m in [".", "otel", "stores/durablestream", "stores/sqlite"]:
@@ -48,6 +50,8 @@ try:
         rc1, out1 = sh(cmd, os.path.dirname(target))
         results.append({"demo": d, "dir": pkgdir[pk], "cmd": cmd, "fails_with_patch": rc1 != 0, "with_patch_tail": out1[-600:]})
     sh("git checkout -- . ", WT)
+    for nf in new_files:
+        os.remove(os.path.join(WT, nf))
     for r in results:
         if "cmd" in r:
             rc2, out2 = sh(r["cmd"], os.path.join(WT, r["dir"]))
